@@ -10,6 +10,14 @@ ops (every line starts with `reset`: the harness rebuilds its fixture from the l
   reset flood nu=<int32> k=<1..40> bc=<0|1>
                                      k posts in a row by a verified non-sysop user on a plain board with NUser=nu
                                      (bc: BRD_COOLDOWN set), the cool-down word carried from post to post
+  reset friends <op> <restricted|hidden> <steps>
+                                     a history on the friend list (`visable`) of the written board, which is restricted-post
+                                     resp. hidden+postmask; everything else as in the base row.  steps, `/`-separated, ≤ 24, ≥ 1 P:
+                                       L:<names>  write the list and call cache.HbflReload      W:<names>  write the list only
+                                       X  let the loaded list expire (reload at the next look-up)  D  remove the list file, HbflReload
+                                       P  the user performs <op>
+                                     names: comma separated, `-` = empty; u U the user, c p k other accounts, g G guest, z unknown id,
+                                     e empty first field; `x*n` repeats (n ≤ 120).   answer: one `ok|err:<id>:same|changed` per P
   facts                              print the regenerated source-shape facts
 
 <facts> = 33 tokens `key=value` in this order:
@@ -182,10 +190,66 @@ def flood (u : User) (b : Board) : Nat → UInt32 → List String → List Strin
       let w2 := if o.err.isNone then afterPost b w1 fixedNow else w1
       flood u b k w2 ((match o.err with | none => "ok" | some e => "err:" ++ e) :: acc)
 
+/-! friend-list histories -/
+
+def theUid : Nat := 40
+
+/-- one name of a list: u/U the user, c p k other accounts, g G guest, z an unknown id, e an empty first field;
+`x*n` repeats. -/
+def nameUid (c : String) : Option Nat :=
+  if c = "u" || c = "U" then some theUid
+  else if c = "c" then some 2 else if c = "p" then some 3 else if c = "k" then some 4
+  else if c = "g" || c = "G" || c = "z" || c = "e" then some 0
+  else none
+
+def parseNames (s : String) : Option (List Nat) :=
+  if s = "-" then some [] else
+  (s.splitOn ",").foldlM (fun acc t =>
+    match t.splitOn "*" with
+    | [c] => (nameUid c).map fun u => acc ++ [u]
+    | [c, n] => do
+        let u ← nameUid c
+        let k ← parseNat n 3 120
+        if k = 0 then none else pure (acc ++ List.replicate k u)
+    | _ => none) []
+
+inductive FStep where
+  | load (es : List Nat) | write (es : List Nat) | expire | delete | perform
+
+def parseStep (s : String) : Option FStep :=
+  if s = "X" then some .expire else if s = "D" then some .delete else if s = "P" then some .perform
+  else match s.splitOn ":" with
+    | ["L", l] => (parseNames l).map .load
+    | ["W", l] => (parseNames l).map .write
+    | _ => none
+
+structure FState where
+  row : List Nat
+  file : Option (List Nat)
+  out : List String
+
+def friendsRow (op : Op) (hidden : Bool) (friend : Bool) : Row :=
+  let attr : UInt32 := if hidden then BRD_HIDE ||| BRD_POSTMASK else BRD_RESTRICTEDPOST
+  let x : Row := { witnessCoolingDown with cd := 0 }
+  match op with
+  | .crosspost => { x with tgt := { x.tgt with attr := attr, friend := friend } }
+  | _ => { x with src := { x.src with attr := attr, friend := friend } }
+
+def friendsStep (op : Op) (hidden : Bool) (st : FState) : FStep → FState
+  | .load es => { st with file := some es, row := hbflReload Gen.WriteGuards.hbflReloadReplacesRow Gen.WriteGuards.hbflMissingFileKeepsRow st.row (some es) fixedNow }
+  | .write es => { st with file := some es }
+  | .expire => { st with row := (fixedNow - HBFLexpire - 100) :: st.row.drop 1 }
+  | .delete => { st with file := none, row := hbflReload Gen.WriteGuards.hbflReloadReplacesRow Gen.WriteGuards.hbflMissingFileKeepsRow st.row none fixedNow }
+  | .perform =>
+      let (fr, row') := isHiddenBoardFriend Gen.WriteGuards.hbflReloadReplacesRow Gen.WriteGuards.hbflMissingFileKeepsRow st.row st.file theUid fixedNow
+      let o := run op (friendsRow op hidden fr)
+      { st with row := row', out := st.out ++ [(match o.err with | none => "ok" | some e => "err:" ++ e) ++ (if o.touched then ":changed" else ":same")] }
+
 def step (_ : Unit) (ws : List String) : Unit × String :=
   let out := match ws with
     | ["facts"] =>
         s!"newPostDelegates={Gen.WriteGuards.newPostDelegates} postperm2={Gen.WriteGuards.checkPostPerm2IsPostpermMsg} " ++
+        s!"hbflReplaces={Gen.WriteGuards.hbflReloadReplacesRow} hbflMissingKeeps={Gen.WriteGuards.hbflMissingFileKeepsRow} maxFriend={Gen.WriteGuards.MAX_FRIEND} " ++
         s!"guardsFirst={guardsFirst Gen.WriteGuards.newpost},{guardsFirst Gen.WriteGuards.recommend},{guardsFirst Gen.WriteGuards.editpost},{guardsFirst Gen.WriteGuards.crosspost}"
     | ["reset", "flood", nu, k, bc] =>
         match (kv "nu" nu) >>= parseI32, (kv "k" k) >>= (parseNat · 2 40), (kv "bc" bc) >>= parseBool with
@@ -196,6 +260,13 @@ def step (_ : Unit) (ws : List String) : Unit × String :=
             let (rs, w) := flood u b k 0 []
             ",".intercalate rs ++ s!" pt={(posttimesOf w).toNat}"
         | _, _, _ => "bad-op"
+    | ["reset", "friends", op, kind, steps] =>
+        match parseOp op, (steps.splitOn "/").mapM parseStep with
+        | some op, some sts =>
+            if (kind ≠ "restricted" && kind ≠ "hidden") || sts.length > 24 || !sts.any (fun s => match s with | .perform => true | _ => false) then "bad-op" else
+            let st := sts.foldl (friendsStep op (kind = "hidden")) { row := hbflFresh fixedNow, file := none, out := [] }
+            ",".intercalate st.out
+        | _, _ => "bad-op"
     | "reset" :: "witness" :: name :: op :: facts =>
         match witnessRow name, parseOp op, parseRow facts with
         | some w, some op, some x =>
